@@ -212,6 +212,19 @@ def main(argv=None):
         if m["evals"].get(mon, 0) == 0 and explicit is None:
             inconclusive.append(f"deciding monitor {mon} was never evaluated")
 
+    # a check only decides with the monitors its property owns: violations of other
+    # properties' ambient monitors (attached in every worker) are reported in the
+    # evidence but never raise this property's alarm
+    owns = set(meta.get("owns", []))
+
+    def owned(mon):
+        return mon.startswith(prop + ".") or mon == "harness.uncaught" or mon in owns
+
+    foreign = {k: c for k, c in m["vio_counts"].items() if not owned(k)}
+    m["violations"] = [v for v in m["violations"] if owned(v["monitor"])]
+    m["vio_counts"] = collections.Counter(
+        {k: c for k, c in m["vio_counts"].items() if owned(k)})
+
     known = verdict.load_known()
     unlisted, known_seen = [], collections.OrderedDict()
     for v in m["violations"]:
@@ -254,6 +267,7 @@ def main(argv=None):
         "events": dict(sorted(m["events"].items())),
         "anchor_lines_hit": anchors.anchor_report(prop, m["anchors"]),
         "violations_by_monitor": dict(m["vio_counts"]),
+        "foreign_monitor_violations": foreign,
         "known_findings_seen": {k: c for k, (f, c) in known_seen.items()},
         "inconclusive_reasons": inconclusive,
         "cases_skipped_for_time_budget": m["skipped"],
